@@ -1,0 +1,17 @@
+//go:build verif
+
+// Contracts for the deductive verifier in /verif (comment-only file; see /verif/DESIGN.md).
+package heartbeat
+
+//@ property C04
+
+// Wire layout per version, from the Kafka protocol definition of this API (field order, types and the versions each field
+// exists in); the encoders and decoders are compiled from the struct tags, so the tags are checked against it.
+//@ wire Request
+//@   layout v0..v2 GroupID string, GenerationID int32, MemberID string
+//@   layout v3 GroupID string, GenerationID int32, MemberID string, GroupInstanceID string?
+//@   layout v4 _ struct{} @-1, GroupID string, GenerationID int32, MemberID string, GroupInstanceID string?
+//@ wire Response
+//@   layout v0 ErrorCode int16
+//@   layout v1..v3 ThrottleTimeMs int32, ErrorCode int16
+//@   layout v4 _ struct{} @-1, ThrottleTimeMs int32, ErrorCode int16
